@@ -59,12 +59,14 @@ ASSUMPTIONS = [
     "and a map that reports it has no valid entry",
 ]
 BOUNDS = {
-    "quick": dict(term_depth=2, depth1="complete (all ops over all 25 leaves, both operands any leaf)",
-                  depth2="every op over depth-1 terms built from 6 core leaves; binary partner from 2 leaves",
-                  lookup_len=3, index_values=[0, 1, 2], jit_stride=40, vector_flags=1),
-    "thorough": dict(term_depth=3, depth1="complete", depth2="every op over every depth-1 term; binary partner from 6 core leaves",
-                     depth3="every op over depth-2 terms built from 3 core leaves and reduced op parameters",
-                     lookup_len=3, index_values=[0, 1, 2], jit_stride=60, vector_flags=8),
+    "quick": dict(term_depth=2, leaves=25,
+                  depth1="every unary op x parameter over every leaf; every binary op over leaf x 4 core leaves, both orders",
+                  depth2="pair covering: every op x parameter over every depth-1 term built from 3 core leaves (binary partner kw_ab)",
+                  lookup_len=3, index_values=[0, 1, 2], jit_stride=25, vector_flags=1),
+    "thorough": dict(term_depth=3, leaves=32, depth1="complete (all ops, both operands any of the 32 leaves)",
+                     depth2="every op x parameter over every depth-1 term with a core-leaf partner (25 leaves x 6 core leaves)",
+                     depth3="every reduced op over depth-2 terms built from 3 core leaves",
+                     lookup_len=3, index_values=[0, 1, 2], jit_stride=40, vector_flags=8),
 }
 JOBS = {"quick": 8, "thorough": 16}
 
@@ -104,7 +106,8 @@ class Entry:
     key: tuple
     value: np.ndarray  # if the key has a vector level (SL / Arr) the leading axis belongs to it
     valid: np.ndarray  # bool, shape () or (n,) aligned with the vector level
-    dyn: bool = False  # the flag is a runtime flag in the library (present even when False)
+    dyn: bool = False  # lookups answer with a runtime flag (runtime leaf flag or runtime index level)
+    rt: bool = False  # the *leaf* carries a runtime flag (array mask flag, runtime switch, vmapped flags)
 
     def static_part(self):
         return tuple(c for c in self.key if isinstance(c, str))
@@ -279,6 +282,7 @@ LEAF_NAMES = [
     "c_sl_a", "c_sl_dict", "vmap_ia", "vmap_ai", "c_arange_a", "vmap_kw", "vmap_mask:101",
 ]
 CORE6 = ["kw_nest", "c_set_nested", "c_1a", "c_arr_a", "c_sl_a", "choice"]
+CORE4 = ["kw_nest", "c_1a", "c_arr_a", "c_sl_a"]
 CORE3 = ["kw_nest", "c_1a", "c_arr_a"]
 PARTNER2 = ["kw_ab", "c_1a"]
 
@@ -379,52 +383,62 @@ def outer_kind(t):
 # ---- enumeration
 
 
+def _dedupe(terms):
+    seen, uniq = set(), []
+    for t in terms:
+        s = term_str(t)
+        if s not in seen:
+            seen.add(s)
+            uniq.append(t)
+    return uniq
+
+
+def expand(pool, partners, reduced=False, both_orders=True):
+    """every unary op over the pool; every binary op over pool x partners (both operand orders,
+    or - both_orders=False - alternating order and, for |, alternating spelling)."""
+    res = []
+    n = 0
+    for t in pool:
+        for op in unary_ops(reduced):
+            res.append(op(t))
+    for op in binary_ops(reduced):
+        for t in pool:
+            for p in partners:
+                n += 1
+                if both_orders:
+                    res.append(op(t, p, n))
+                    res.append(op(p, t, n + 1))
+                else:
+                    res.append(op(t, p, n) if n % 2 else op(p, t, n))
+    return _dedupe(res)
+
+
 def enumerate_terms(tier):
     """-> list of (pool_name, term); deterministic."""
-    leaves = [leaf(n) for n in LEAF_NAMES]
-    if tier == "thorough":
-        leaves += [leaf("vmap_mask:" + "".join(str(int(b)) for b in f)) for f in FLAGS3_ALL if f != (True, False, True)]
-    out = [("d0", t) for t in leaves]
-
-    def expand(pool, partners, reduced=False):
-        res = []
-        n = 0
-        for t in pool:
-            for op in unary_ops(reduced):
-                res.append(op(t))
-        for op in binary_ops(reduced):
-            for t in pool:
-                for p in partners:
-                    n += 1
-                    res.append(op(t, p, n))
-                    if p is not t or True:
-                        n += 1
-                        res.append(op(p, t, n))
-        # remove duplicates produced by (t,p)/(p,t) when both are partners
-        seen, uniq = set(), []
-        for t in res:
-            s = term_str(t)
-            if s not in seen:
-                seen.add(s)
-                uniq.append(t)
-        return uniq
-
-    # depth 1: complete
-    d1 = expand(leaves, leaves)
-    out += [("d1", t) for t in d1]
+    base = [leaf(n) for n in LEAF_NAMES]
     core6 = [leaf(n) for n in CORE6]
+    core4 = [leaf(n) for n in CORE4]
     core3 = [leaf(n) for n in CORE3]
+    partner2 = [leaf(n) for n in PARTNER2]
     if tier == "quick":
-        d1core = expand(core6, core6)
-        d2 = expand(d1core, [leaf(n) for n in PARTNER2])
-        out += [("d2", t) for t in d2]
-    else:
-        d2 = expand(d1, core6)
-        out += [("d2", t) for t in d2]
-        d1c = expand(core3, core3, reduced=True)
-        d2c = expand(d1c, core3, reduced=True)
-        d3 = expand(d2c, [leaf(n) for n in PARTNER2], reduced=True)
-        out += [("d3", t) for t in d3]
+        out = [("d0", t) for t in base]
+        # depth 1: every unary op over every leaf; every binary op over leaf x core leaf, both orders
+        out += [("d1", t) for t in expand(base, core4)]
+        # depth 2, pair covering: every (outer op x parameter) over every (inner op x parameter)
+        inner = expand(core3, partner2[:1])
+        out += [("d2", t) for t in expand(inner, partner2[:1], both_orders=False)]
+        return out
+    leaves = base + [leaf("vmap_mask:" + "".join(str(int(b)) for b in f)) for f in FLAGS3_ALL if f != (True, False, True)]
+    out = [("d0", t) for t in leaves]
+    # depth 1: complete (all ops, both operands any leaf)
+    out += [("d1", t) for t in expand(leaves, leaves)]
+    # depth 2: every op over every depth-1 term whose binary partner is a core leaf
+    d1q = expand(base, core6)
+    out += [("d2", t) for t in expand(d1q, partner2, both_orders=False)]
+    # depth 3 over 3 core leaves with reduced op parameters
+    d1c = expand(core3, core3, reduced=True)
+    d2c = expand(d1c, core3, reduced=True)
+    out += [("d3", t) for t in expand(d2c, partner2, reduced=True, both_orders=False)]
     return out
 
 
@@ -515,7 +529,7 @@ def _ref_leaf(name, alloc):
     if name.startswith("vmap_mask:"):
         v = alloc(3)
         flags = np.array([ch == "1" for ch in name.split(":")[1]])
-        return [Entry((Arr((0, 1, 2)), "a"), np.asarray(v, np.float64), flags, True)]
+        return [Entry((Arr((0, 1, 2)), "a"), np.asarray(v, np.float64), flags, True, True)]
     raise KeyError(name)
 
 
@@ -549,7 +563,7 @@ def build_ref(t, alloc) -> Ref:
         pre = _addr_ref(t[2])
         has_rt = any(isinstance(c, Dyn) for c in pre)
         return inner.with_entries(
-            [Entry(pre + e.key, e.value, e.valid, e.dyn or has_rt) for e in inner.entries]
+            [Entry(pre + e.key, e.value, e.valid, e.dyn or has_rt, e.rt) for e in inner.entries]
         )
     if k == "at_set":
         inner = build_ref(t[2], alloc)
@@ -559,9 +573,15 @@ def build_ref(t, alloc) -> Ref:
         inner = build_ref(t[2], alloc)
         kind, flag = t[1]
         if kind == "c":
-            return inner.with_entries(list(inner.entries) if flag else [])
+            if flag:
+                return inner.with_entries(list(inner.entries))
+            # concrete False: entries disappear; a leaf that already carries a runtime flag may stay
+            # behind as present-but-invalid (the library and-s the flags at run time)
+            return inner.with_entries(
+                [Entry(e.key, e.value, np.logical_and(e.valid, False), True, True) for e in inner.entries if e.rt]
+            )
         return inner.with_entries(
-            [Entry(e.key, e.value, np.logical_and(e.valid, flag), True) for e in inner.entries]
+            [Entry(e.key, e.value, np.logical_and(e.valid, flag), True, True) for e in inner.entries]
         )
     if k == "filter":
         inner = build_ref(t[2], alloc)
@@ -585,7 +605,7 @@ def build_ref(t, alloc) -> Ref:
         es = []
         for j, rb in enumerate((r1, r2)):
             for e in rb.entries:
-                es.append(Entry(e.key, e.value, np.logical_and(e.valid, j == idx), True))
+                es.append(Entry(e.key, e.value, np.logical_and(e.valid, j == idx), True, True))
         return r1.with_entries(es, r2)
     raise KeyError(k)
 
@@ -905,6 +925,9 @@ def _addr_arg(addr):
 
 
 class Checker:
+    MAX_PER_SIG = 3  # reports per signature and case (the rest is counted), so that one defect
+    # class cannot crowd other signatures out of the per-case failure list
+
     def __init__(self, ctx, t, ref, mode):
         self.ctx, self.t, self.ref, self.mode = ctx, t, ref, mode
         self.cls = input_class(t, ref)
@@ -912,16 +935,29 @@ class Checker:
         self.n = 0
         self.hits = 0
         self.name = term_str(t)
+        self.term_sigs = set()
 
-    def fail(self, op, symptom, **detail):
-        self.ctx.fail(self.comp, op, self.cls, symptom,
-                      dict(term=self.name, mode=self.mode, **detail))
+    def fail(self, op, symptom, _component=None, **detail):
+        comp = _component or ("ChmSel" if op == "get_selection" else self.comp)
+        sig = (comp, op, self.cls, symptom)
+        self.ctx.note("violating_lookups")
+        if sig in self.term_sigs:
+            return
+        self.term_sigs.add(sig)
+        counts = self.ctx.__dict__.setdefault("_c17_sig", {})
+        counts[sig] = counts.get(sig, 0) + 1
+        if counts[sig] > self.MAX_PER_SIG:
+            self.ctx.fail_count += 1
+            return
+        self.ctx.fail(comp, op, self.cls, symptom, dict(term=self.name, mode=self.mode, **detail))
 
     def exc(self, op, e, probe):
+        self.n += 1
         if accepted_exception(e, self.ref):
             self.ctx.note("lookups_excluded_unsupported")
             return
-        self.fail(op, f"exception:{type(e).__name__}", probe=_pp(probe), message=str(e)[:200])
+        self.fail(op, f"exception:{type(e).__name__}", probe=_pp(probe), message=str(e)[:200],
+                  _component=raising_function(e))
 
     def compare_value(self, op, probe, exp, got):
         """exp: ref_lookup dict; got: None (absent) or (value, flag)"""
@@ -949,8 +985,27 @@ class Checker:
                               statically_present_in_model=exp["present"])
 
 
+def raising_function(e):
+    """innermost library frame of the traceback, e.g. 'Static.get_inner_map' (coarse and stable)."""
+    tb = e.__traceback__
+    name = None
+    while tb is not None:
+        code = tb.tb_frame.f_code
+        fn = code.co_filename
+        if fn.endswith("choice_map.py") or fn.endswith("functional_types.py"):
+            q = getattr(code, "co_qualname", code.co_name)
+            if "<lambda>" in q or "<locals>" in q:
+                q = q.split(".<")[0]
+            name = q
+        tb = tb.tb_next
+    return name or "choice_map"
+
+
 def _pp(probe):
     return [":" if isinstance(c, slice) else c for c in probe]
+
+
+_FAILED = object()
 
 
 def check_eager(ctx, t, tier):
@@ -967,8 +1022,7 @@ def check_eager(ctx, t, tier):
             ctx.ev(("eager", name), nontrivial=False)
             return None
         ctx.ev(("eager", name), nontrivial=True)
-        ctx.fail(outer_kind(t), "build", input_class(t, ref), f"exception:{type(e).__name__}",
-                 dict(term=name, message=str(e)[:200]))
+        Checker(ctx, t, ref, "eager").fail("build", f"exception:{type(e).__name__}", message=str(e)[:200])
         return None
     if ref.marks & {"value_and_submap", "shape_clash"}:
         # outside the finite-map model (documented unsupported, although this term did not raise)
@@ -977,10 +1031,12 @@ def check_eager(ctx, t, tier):
         return None
     ck = Checker(ctx, t, ref, "eager")
     probes = gen_probes(ref)
+    costly = has_dynamic(t)
     # --- documented static facts
     ck.n += 1
     try:
-        if t[0] == "mask" and t[1] == ("c", False) and not chm.static_is_empty():
+        if t[0] == "mask" and t[1] == ("c", False) and not ref.entries and not chm.static_is_empty():
+            # (a leaf that already carries a runtime flag may survive as Mask(v, False-array))
             ck.fail("static_is_empty", "mask_false_not_empty")
         if t == ("leaf", "empty") and not chm.static_is_empty():
             ck.fail("static_is_empty", "empty_not_empty")
@@ -988,38 +1044,26 @@ def check_eager(ctx, t, tier):
             ck.fail("static_is_empty", "nonempty_reported_empty")
     except Exception as e:  # noqa: BLE001
         ck.exc("static_is_empty", e, ())
+    subs = {}
+    dead = set()  # prefixes at which get_submap raised: every longer address raises at the same step
     for k, probe in enumerate(probes):
+        if any(probe[:i] in dead for i in range(1, len(probe))):
+            ctx.note("lookups_below_raising_prefix")
+            continue
         exp = ref_lookup(ref, probe)
         arg = _addr_arg(probe) if probe else ()
-        # 1. chm[addr]
-        got_item = "exc"
+        # 1. sub-map: chm(addr) / get_submap(...), reached by one more step from the parent's
+        #    sub-map when there is one (public __call__ / get_submap), else by the full path
+        sub = _FAILED
         try:
-            got_item = _norm(chm[arg])
-        except NoValue:
-            got_item = None
-        except Exception as e:  # noqa: BLE001
-            ck.n += 1
-            ck.exc("getitem", e, probe)
-        if got_item != "exc":
-            ck.compare_value("getitem", probe, exp, got_item)
-        # 2. addr in chm
-        try:
-            isin = arg in chm
-            ck.n += 1
-            if not exp["unspec"]:
-                if exp["valid"] and not isin:
-                    ck.fail("contains", "missing_valid_entry", probe=_pp(probe))
-                if got_item != "exc" and (got_item is not None) != bool(isin):
-                    ck.fail("contains", "inconsistent_with_getitem", probe=_pp(probe), contains=bool(isin))
-        except Exception as e:  # noqa: BLE001
-            ck.n += 1
-            ck.exc("contains", e, probe)
-        # 3. chm(addr) / get_submap(*addr): get_value, has_value, static_is_empty
-        try:
-            if k % 2 == 0:
-                sub = chm(arg) if probe else chm()
+            parent = subs.get(probe[:-1], _FAILED) if probe else _FAILED
+            if not probe:
+                sub = chm()
+            elif parent is not _FAILED:
+                sub = parent(probe[-1]) if k % 2 == 0 else parent.get_submap(probe[-1])
             else:
-                sub = chm.get_submap(*probe)
+                sub = chm(arg) if k % 2 == 0 else chm.get_submap(*probe)
+            subs[probe] = sub
             v = sub.get_value()
             hv = sub.has_value()
             ck.compare_value("get_submap", probe, exp, None if v is None else _norm(v))
@@ -1028,8 +1072,38 @@ def check_eager(ctx, t, tier):
             if not exp["unspec"] and exp["sub_valid"] and sub.static_is_empty():
                 ck.fail("get_submap", "nonempty_reported_empty", probe=_pp(probe))
         except Exception as e:  # noqa: BLE001
-            ck.n += 1
             ck.exc("get_submap", e, probe)
+            if not accepted_exception(e, ref):
+                dead.add(probe)
+        # 2./3. full-path chm[addr] and addr in chm.  Costly (runtime-indexed) terms: both forms on
+        #    every address in or above an entry and on short addresses, one alternating form elsewhere.
+        both = (not costly) or exp["sub_present"] or len(probe) <= 1
+        do_item = both or k % 2 == 0
+        do_in = both or k % 2 == 1
+        got_item = "skip"
+        if do_item:
+            try:
+                got_item = _norm(chm[arg])
+            except NoValue:
+                got_item = None
+            except Exception as e:  # noqa: BLE001
+                got_item = "exc"
+                ck.exc("getitem", e, probe)
+            if got_item != "exc":
+                ck.compare_value("getitem", probe, exp, got_item)
+        if do_in:
+            try:
+                isin = arg in chm
+                ck.n += 1
+                if not exp["unspec"]:
+                    if exp["valid"] and not isin:
+                        ck.fail("contains", "missing_valid_entry", probe=_pp(probe))
+                    if got_item not in ("exc", "skip") and (got_item is not None) != bool(isin):
+                        ck.fail("contains", "inconsistent_with_getitem", probe=_pp(probe), contains=bool(isin))
+                    if not isin and sub is not _FAILED and sub.has_value():
+                        ck.fail("contains", "inconsistent_with_get_submap", probe=_pp(probe))
+            except Exception as e:  # noqa: BLE001
+                ck.exc("contains", e, probe)
     # --- full-slice lookups
     for probe in slice_probes(ref):
         try:
@@ -1037,7 +1111,6 @@ def check_eager(ctx, t, tier):
         except NoValue:
             got = None
         except Exception as e:  # noqa: BLE001
-            ck.n += 1
             ck.exc("getitem_slice", e, probe)
             continue
         ck.n += 1
@@ -1063,7 +1136,6 @@ def check_eager(ctx, t, tier):
         sel = chm.get_selection()
     except Exception as e:  # noqa: BLE001
         sel = None
-        ck.n += 1
         ck.exc("get_selection", e, ())
     if sel is not None:
         valid_static = {e.static_part() for e in ref.entries if bool(np.any(e.valid))}
@@ -1075,14 +1147,17 @@ def check_eager(ctx, t, tier):
                 got = bool(sel[probe]) if len(probe) != 1 else bool(sel[probe[0]])
                 got2 = (probe in sel) if len(probe) != 1 else (probe[0] in sel)
             except Exception as e:  # noqa: BLE001
-                ck.n += 1
                 ck.exc("get_selection", e, probe)
                 continue
             ck.n += 1
             if got != bool(got2):
                 ck.fail("get_selection", "getitem_vs_contains", probe=_pp(probe))
             if probe in valid_static and not got:
-                ck.fail("get_selection", "address_not_selected", probe=_pp(probe))
+                plain = any(e.static_part() == probe and len(e.key) == len(probe) and bool(np.any(e.valid))
+                            for e in ref.entries)
+                ck.fail("get_selection",
+                        "address_not_selected" if plain else "address_under_index_level_not_selected",
+                        probe=_pp(probe))
             elif probe not in present_static and got:
                 ck.fail("get_selection", "foreign_address_selected", probe=_pp(probe))
     ctx.ev(("eager", name), nontrivial=bool(ref.entries) and ck.hits > 0, n=ck.n)
@@ -1151,7 +1226,6 @@ def check_jit(ctx, t, tier):
         exp = ref_lookup(ref, probe)
         s = static.get(k)
         if isinstance(s, Exception):
-            ck.n += 1
             ck.exc("getitem", s, probe)
             continue
         ck.compare_value("getitem", probe, exp, None if s is None else outs[s])
@@ -1163,7 +1237,7 @@ def check_jit(ctx, t, tier):
 # =============================================================================================
 # cases
 
-CHUNK = {"quick": 160, "thorough": 400}
+CHUNK = {"quick": 50, "thorough": 250}
 
 
 def _run_chunk(terms, tier, seed, first_index):
